@@ -9,3 +9,8 @@ u, v, f, g = TrialFunction(V), TestFunction(V), Coefficient(V), Coefficient(V)
 a = (u * v * dx + 2 * u * v * dx(7) + 3 * u * v * dx(2) + f * u * v * dx((9, 4)) + u * v * ds(5)
      + g * u * v * ds + u("+") * v("-") * dS(6) + u * v * dx((1, 5)) + u * v * dx(3))
 forms = [a]
+# one id served by two integral groups (overlapping id sets, different metadata)
+from ufl import grad, inner  # noqa: E402
+
+b = u * v * dx((1, 2)) + inner(grad(u), grad(v)) * dx(2, degree=1) + f * u * v * dx + g * u * v * dx(5) + u * v * dx(5, degree=1)
+forms = [a, b]
